@@ -35,7 +35,7 @@ def family_of(label):
 
 def inspect(data):
     try:
-        with drv.Watchdog(5.0):
+        with drv.Env('inspect', len(data), data[4:8], data[-2:]), drv.Watchdog(5.0):
             info = mciipm.ipm_info(io.BytesIO(data))
     except BaseException as ex:  # noqa
         return {'valid': False, 'reason': False, 'blocked': 'absent', 'family': 'absent'}, drv.exc_outcome(ex)
